@@ -52,3 +52,19 @@ Proof.
   intros be H. split; [apply ex_all_wf; cbn [In] in H; intuition lia|].
   pose proof (ex_all_runs be H) as R. cbv zeta in R. tauto.
 Qed.
+
+(* ---- tie (a): the decision points the model uses at this place ARE the current C text (Core/CoreLeafLink.v;
+   Gen/LeafCore*.v is re-translated from /repo/src by gen/c2gallina.py on every run of this check) ---- *)
+From Ivv Require Import Base.CSem Gen.LeafCoreFd Gen.LeafCoreTask Gen.LeafCoreMain Gen.LeafCoreEpoll Gen.LeafCorePoll Core.CoreLeafLink.
+
+(* iv_fd_timeout_check (when the deadline moves into the kernel timer, when it is kept, cleared, counted) is built from
+   the translated tests and stores of the C function *)
+Theorem C04_timeout_check_is_the_code :
+  forall s abs, int_ok (last_abs_count s + 1) -> timeout_check_code s abs = Some (timeout_check s abs).
+Proof. exact timeout_check_is_the_code. Qed.
+Print Assumptions C04_timeout_check_is_the_code.
+
+Theorem C04_run_timers_reset_is_the_code :
+  forall rt : bool, core_par_rt (b2z rt) = Some rt /\ core_par_count_reset tt = Some 0.
+Proof. exact poll_and_run_reset_is_the_code. Qed.
+Print Assumptions C04_run_timers_reset_is_the_code.
